@@ -143,6 +143,7 @@ type failFile struct {
 	Unit     string          `json:"unit"`
 	Message  string          `json:"message"`
 	Case     json.RawMessage `json:"case"`
+	Race     bool            `json:"race,omitempty"` // captured by a race-detector build: replay with one
 }
 
 func writeFail(prop, unit string, c any, msg string) {
@@ -154,7 +155,7 @@ func writeFail(prop, unit string, c any, msg string) {
 	if err != nil {
 		cb = []byte(fmt.Sprintf("%q", fmt.Sprint(c)))
 	}
-	b, _ := json.MarshalIndent(failFile{prop, unit, msg, cb}, "", " ")
+	b, _ := json.MarshalIndent(failFile{prop, unit, msg, cb, RaceEnabled}, "", " ")
 	_ = os.WriteFile(p, b, 0o644)
 }
 
@@ -304,7 +305,7 @@ func (g *guard) begin(c any) {
 	if g.path != "" {
 		cb, err := json.Marshal(c)
 		if err == nil {
-			b, _ := json.Marshal(failFile{g.prop, g.unit, "pending", cb})
+			b, _ := json.Marshal(failFile{g.prop, g.unit, "pending", cb, RaceEnabled})
 			_ = os.WriteFile(g.path, b, 0o644)
 		}
 	}
